@@ -743,6 +743,11 @@ class TGen(Gen):
     """temporal problems: durative (and instantaneous) actions, timed effects / goals."""
 
     def dur_bound(self, scope, allow_fluent=True):
+        ints = [p for p in scope["params"] if p[1] != "bool" and p[1][0] == "int"]
+        if ints and allow_fluent and self.b(0.5):
+            # a duration written directly over a numeric action parameter: differs between instances of one action
+            par = ["par", self.pick(ints)[0]]
+            return par if self.b(0.4) else ["+", ["*", ["i", 2], par], ["i", 1]]
         k = self.i(0, 9)
         if k < 7 or not allow_fluent:
             return self.pick([["i", 1], ["i", 2], ["i", 3], ["r", "1/2"], ["r", "3/2"], ["i", 4]])
